@@ -11,7 +11,7 @@ from props.C06 import describe, rules
 REQUIRED_THEOREMS = ['Usid.C11.sides', 'Usid.C11.placeholder', 'Usid.C11.rows_cols_are_the_selection',
                      'Usid.C11.selected_rows_subgrid', 'Usid.C11.sliced_side_dims', 'Usid.C11.sliced_side_coordinates',
                      'Usid.C11.position_side_end_to_end', 'Usid.C11.spectroscopic_side_end_to_end']
-RULE = ('generator datasets built with raw h5py (any storage order) AND datasets produced by the library\'s own writer in '
+RULE = ('[also: numpy integers, tuples, arrays and repeated indices as selectors, main dtypes f8/f4/i4/c16/compound, dset_name, a repeated call; the Values link of an unsliced side, units of remaining dimensions, quantity/units and element type of the new dataset observed] generator datasets built with raw h5py (any storage order) AND datasets produced by the library\'s own writer in '
         'both ordering conventions, crossed with slicing dictionaries as in C07 (ints, slices, index lists on any '
         'subset of dimensions; every sixth case an IRREGULAR list that looks regular at first sight, on a long dimension or spread over two) and with the wrapper\'s view (file order, sorted, toggled); the new dataset is read back with raw h5py and compared, coordinate by coordinate '
         '(physical values of the remaining dimensions), with the source; non-trivial = a sliced side keeps >= 2 '
@@ -24,7 +24,7 @@ def generate(seed, tier):
     for i in range(n_cases):
         rng = derived_rng(seed, 'C11', i)
         while True:
-            ds = gen.gen_dataset(rng, max_dims=3, max_size=4, long_prob=0.12)
+            ds = gen.gen_dataset(rng, max_dims=3, max_size=4, long_prob=0.12, dtypes=('f8', 'f8', 'f4', 'i4', 'c16', 'compound'))
             n, m = gen.n_points(ds['pos']), gen.n_points(ds['spec'])
             if n * m <= 400 and all(len(s['sizes']) <= gen.n_points(s) for s in (ds['pos'], ds['spec'])):
                 break
@@ -33,7 +33,7 @@ def generate(seed, tier):
         sd = []
         for lab, sz in zip(labs, sizes):
             if rng.random() < 0.5:
-                sd.append({'k': lab, 'v': gen_sel(rng, sz, rng.choice(['int', 'slice', 'list', 'list', 'full']))})
+                sd.append({'k': lab, 'v': gen_sel(rng, sz, rng.choice(['int', 'slice', 'list', 'list', 'full', 'tuple', 'array']))})
         if not sd:
             sd.append({'k': labs[0], 'v': gen_sel(rng, sizes[0], 'list')})
         if i % 6 == 5:
@@ -63,8 +63,17 @@ def generate(seed, tier):
             elif any(l in (pre + 'X', pre + 'Y') for l in ds[other]['labels']):
                 ds[other] = dict(ds[other], labels=[('S' if side == 'pos' else 'P') + 'Q%d' % d for d in range(len(ds[other]['labels']))])
         rng.shuffle(sd)
+        npk = rng.choice([None, None, 'int64', 'int32'])
+        for x in sd:
+            if x['v'].get('t') == 'int' and npk:
+                x['v'] = dict(x['v'], **{'as': npk})                      # numpy integers as scalar selectors
+            elif x['v'].get('t') == 'list' and x['v']['l'] and rng.random() < 0.12:
+                l = list(x['v']['l'])
+                l.insert(rng.randrange(len(l) + 1), rng.choice(l))        # an index repeated inside a list
+                x['v'] = dict(x['v'], l=l)
         cases.append({'ds': ds, 'sd': sd, 'source': rng.choice(['raw', 'raw', 'writer_f2s', 'writer_s2f']),
-                      'view': rng.choice(['file', 'file', 'sorted', 'toggled'])})
+                      'view': rng.choice(['file', 'file', 'sorted', 'toggled']),
+                      'dset_name': rng.choice([None, None, None, 'cut']), 'twice': rng.random() < 0.15})
     return cases
 
 
@@ -85,7 +94,7 @@ def _make_source(inp, f):
         return [Dimension(side['labels'][d], side['units'][d], [v / 4.0 for v in side['values'][d]]) for d in order]
     n, m = gen.n_points(ds['pos']), gen.n_points(ds['spec'])
     with quiet():
-        return write_main_dataset(g, gen.main_array(n, m, 'f8'), 'main', 'Current', 'nA', dims(ds['pos']), dims(ds['spec']),
+        return write_main_dataset(g, gen.main_array(n, m, ds.get('dtype', 'f8')), 'main', 'Current', 'nA', dims(ds['pos']), dims(ds['spec']),
                                   slow_to_fast=s2f)
 
 
@@ -139,12 +148,35 @@ def run_impl(inp, work):
         if view == 'toggled':
             u.toggle_sorting()
         sd = {x['k']: _py_sel(x['v']) for x in inp['sd']}
-        r = call(u.slice_to_dataset, sd)
+        kw = {'dset_name': inp['dset_name']} if inp.get('dset_name') else {}
+        r = call(u.slice_to_dataset, sd, **kw)
         if r[0] == 'err':
             out['err'] = r[1]
             out['cls'] = r[2]
             return out
         new = r[1]
+        h5n = f[new.name]
+        src_pv, src_sv = f[h5.attrs['Position_Values']].name, f[h5.attrs['Spectroscopic_Values']].name
+        out['values_reused'] = [f[h5n.attrs['Position_Values']].name == src_pv, f[h5n.attrs['Spectroscopic_Values']].name == src_sv]
+
+        def strs(a):
+            return [x.decode() if isinstance(x, bytes) else str(x) for x in a]
+        out['new_units'] = {}
+        for link in ('Position_Indices', 'Position_Values', 'Spectroscopic_Indices', 'Spectroscopic_Values'):
+            d = f[h5n.attrs[link]]
+            out['new_units'][link] = dict(zip(strs(d.attrs['labels']), strs(d.attrs['units'])))
+        out['main_attrs'] = [str(h5n.attrs.get('quantity')), str(h5n.attrs.get('units')), str(h5.attrs.get('quantity')),
+                             str(h5.attrs.get('units'))]
+        out['dtypes'] = [str(h5n.dtype), str(h5.dtype)]
+        out['leaf'] = new.name.split('/')[-1]
+        if inp.get('twice'):
+            r2 = call(u.slice_to_dataset, sd, **kw)
+            if r2[0] == 'err':
+                out['second'] = {'err': r2[1]}
+            else:
+                m2 = _coord_map(f, f[r2[1].name])[0]
+                m1 = _coord_map(f, h5n)[0]
+                out['second'] = {'group': r2[1].name.split('/')[-2], 'first_group': new.name.split('/')[-2], 'same': m1 == m2}
         new_map, dup, npl, nsl, new_pi, new_si = _coord_map(f, f[new.name])
         out['new_name'] = new.name
         out['valid'] = rules(describe(f, f[new.name]))
@@ -225,11 +257,34 @@ def oracle(inp, obs):
             if not reused:
                 fails.append('unsliced-side-%s: the unsliced side does not refer to the source\'s ancillary datasets' % key)
             continue
-        keep = [l for l in side['labels'] if len(sel.get(l, range(size_of[l]))) >= 2]
+        keep = [l for l in side['labels'] if len(set(sel.get(l, range(size_of[l])))) >= 2]
         if sorted(newlabs) != (sorted(keep) if keep else ['arb.']):
             fails.append('sliced-side-%s: remaining dimensions %s, expected %s' % (key, newlabs, keep or ['arb.']))
     if not obs['source_unchanged']:
         fails.append('source-modified: the source dataset or its ancillaries changed')
+    # the Values link of an unsliced side too, units of the remaining dimensions, descriptive attributes, element type
+    if 'values_reused' in obs:
+        for (side, key), vr in zip(((ds['pos'], 'pos'), (ds['spec'], 'spec')), obs['values_reused']):
+            if not any(l in sel for l in side['labels']) and not vr:
+                fails.append('unsliced-side-values-%s: the Values link of the unsliced side is not the source\'s dataset' % key)
+        unit_of = dict(zip(ds['pos']['labels'] + ds['spec']['labels'], ds['pos']['units'] + ds['spec']['units']))
+        for link, table in obs['new_units'].items():
+            for l, un in table.items():
+                if l in unit_of and un != unit_of[l]:
+                    fails.append('units: %s lists dimension %s with units %r, source %r' % (link, l, un, unit_of[l]))
+        q = obs['main_attrs']
+        if q[0] != q[2] or q[1] != q[3]:
+            fails.append('main-attrs: quantity / units of the new dataset %s differ from the source\'s %s' % (q[:2], q[2:]))
+        if obs['dtypes'][0] != obs['dtypes'][1]:
+            fails.append('dtype: the new dataset holds %s, the source %s' % tuple(obs['dtypes']))
+        if inp.get('dset_name') and obs['leaf'] != inp['dset_name']:
+            fails.append('dset-name: the new dataset is called %r, requested %r' % (obs['leaf'], inp['dset_name']))
+        if 'second' in obs:
+            s2 = obs['second']
+            if 'err' in s2:
+                fails.append('second-call: repeating the call raised %s' % s2['err'])
+            elif not s2['same'] or s2['group'] == s2['first_group']:
+                fails.append('second-call: the repeated call did not produce an equal dataset in a new group (%s)' % (s2,))
     return fails
 
 
